@@ -388,6 +388,27 @@ func jobC16(c *rt.Ctx) {
 			c.Violation(fmt.Sprintf("C16 double-base %s", class), fmt.Sprintf("[s1]P + [s2]B wrong for s1=%s s2=%s P=[%s]B+T_%d (negated unpack: %v)", s1, s2, p.k, p.t, neg),
 				map[string]interface{}{"s1": s1.String(), "s2": s2.String(), "P": ref.Hex(enc), "negated": neg, "expected": ref.Hex(want), "observed": ref.Hex(out[:])})
 		}
+		// the same point in another projective form (every coordinate times 3, as the output of a group
+		// operation would have it: Z != 1)
+		{
+			var three curve25519.Bignum25519
+			fset(&three, big.NewInt(3))
+			ps := P
+			curve25519.Mul(&ps.x, &P.x, &three)
+			curve25519.Mul(&ps.y, &P.y, &three)
+			curve25519.Mul(&ps.z, &P.z, &three)
+			curve25519.Mul(&ps.t, &P.t, &three)
+			var rs, fs Ge25519
+			DoubleScalarmultVartime(&rs, &ps, &m1, &m2)
+			ProjectiveToExtended(&fs, &rs)
+			var outS [32]byte
+			Pack(outS[:], &fs)
+			c.Step(1)
+			if !bytes.Equal(outS[:], want) {
+				c.Violation(fmt.Sprintf("C16 double-base projective-P %s", class), fmt.Sprintf("[s1]P + [s2]B wrong for P given as (3X : 3Y : 3Z : 3T), s1=%s s2=%s P=[%s]B+T_%d", s1, s2, p.k, p.t),
+					map[string]interface{}{"s1": s1.String(), "s2": s2.String(), "P": ref.Hex(enc), "expected": ref.Hex(want), "observed": ref.Hex(outS[:])})
+			}
+		}
 		// the same call with the result written over the point argument (r == p1), as the group
 		// operations of this package are used elsewhere (Double(r, r), CofactorMultiply(&t, &t))
 		pin := P
